@@ -46,6 +46,11 @@ def drivers(curves):
         ds.append(Driver("drv_%s_neutral" % c, [("out", "out", 8, pw)],
                          "        *out = unsafe { transmute::<%s::Point, [u64; %d]>(%s::Point::NEUTRAL) };" % (mod, pw, mod)))
         for n in lengths(c):
+            encf = {33: "encode_compressed()", 65: "encode_uncompressed()"}.get(n, "encode()") if c in ("p256", "secp256k1") else "encode()"
+            if n == L or (c in ("p256", "secp256k1") and n in (33, 65)):
+                # a valid encoding of seed*G in this format (replay material only)
+                ds.append(Driver("drv_%s_valid_%d" % (c, n), [("seed", "in", 8, 1), ("out", "out", 1, n)],
+                                 "        *out = %s::Point::mulgen(&%s::Scalar::from_u64(seed[0])).%s;" % (mod, mod, encf)))
             ds.append(Driver("drv_%s_sd_%d" % (c, n), [("buf", "in", 1, n), ("out", "out", 8, pw), ("st", "out", 4, 1)],
                              "        let mut p = %s::Point::NEUTRAL;\n        let r = p.set_decode(&buf[..]);\n"
                              "        *out = unsafe { transmute::<%s::Point, [u64; %d]>(p) }; st[0] = r;" % (mod, mod, pw)))
@@ -245,7 +250,13 @@ def check(built, curve, n, timeout):
             else:
                 ob.unknown("model does not reproduce natively")
         else:
-            ob.unknown("solver: %s" % v)
+            w_ = _replay_forbidden(built, curve, n, label, drv, timeout)
+            if w_ is not None:
+                ob.fail({"key": "%s.set_decode.reject[%s]" % (curve, label), "inputs": {"buf": bytes(w_[0]).hex()}, "status": hex(w_[1]),
+                         "found_by": "solver %s; a valid encoding altered so as to have the defect (bytes from a z3 model of the defect "
+                                     "predicate) is accepted by the native build" % v}, "z3-bv+replay", time.time() - t0)
+            else:
+                ob.unknown("solver: %s" % v)
     # (c) documented exception: single byte 00 is the point at infinity
     if curve in ("p256", "secp256k1") and n == 1:
         ob = Obligation("default:%s.set_decode[len=1]:accept-00" % curve, "L", fn, bounds,
@@ -257,6 +268,47 @@ def check(built, curve, n, timeout):
         v, mod_, dt = run_solver(em.script([q], get_model=False), "z3", timeout)
         (ob.ok("z3-bv", dt, 1) if v == "unsat" else ob.unknown("solver: %s" % v))
     return obs
+
+
+def _replay_forbidden(built, curve, n, label, drv, timeout):
+    """the claim could not be decided on the cone (a counterexample would need a point on the curve): take valid
+    encodings, overwrite the bytes the defect predicate constrains with z3 models of that predicate (all 255 values
+    for a one-byte defect), and run the native decoder; returns (bytes, status) of an accepted string or None"""
+    vdrv = "drv_%s_valid_%d" % (curve, n)
+    if vdrv not in built.drivers:
+        return None
+    em = BVEmitter()
+    bvars = [T.var("fb%d" % i, 8) for i in range(n)]
+    pred = dict(forbidden(curve, n, em, bvars)).get(label)
+    if pred is None or pred == "true":
+        return None
+    used = sorted(set(int(x) for x in __import__("re").findall(r"fb(\d+)", pred)))
+    cands = []
+    if len(used) == 1:
+        for val in range(256):
+            v, _, _ = run_solver(em.script([pred, "(= %s %s)" % (em.ref(bvars[used[0]], 8), bvc(val, 8))], get_model=False), "z3", 5)
+            if v == "sat":
+                cands.append({used[0]: val})
+    else:
+        block = []
+        for _ in range(6):
+            v, mod, _ = run_solver(em.script([pred] + block), "z3", 10)
+            if v != "sat":
+                break
+            m = parse_model(mod)
+            asg = {i: m.get("fb%d" % i, 0) for i in used}
+            cands.append(asg)
+            block.append("(not (and %s))" % " ".join("(= %s %s)" % (em.ref(bvars[i], 8), bvc(asg[i], 8)) for i in used))
+    for seed in (1, 2, 0x1234567):
+        base = built.native(vdrv, {"seed": [seed]})["out"]
+        for asg in cands:
+            b = list(base)
+            for i, val in asg.items():
+                b[i] = val
+            st = built.native(drv, {"buf": b})["st"][0]
+            if st != 0:
+                return b, st
+    return None
 
 
 # closed cases (no free variable): special encodings whose fate the formats fix.  Evaluated by one native
